@@ -136,7 +136,7 @@ def monitors(case, real, want):
             out.append(("C09", "redo process aborted (panic) during %r" % (o,), i))
         if k == "p":
             progs[o[1]] = o[2]
-        elif k == "w":
+        elif k in ("w", "wp"):
             user_files[o[1]] = str(2 * o[2] + 3)
             last_ood = None
         elif k == "r":
